@@ -56,6 +56,37 @@ def fortran_prototypes(src, work):
     return protos
 
 
+def fortran_interface_bodies(src):
+    """every ACTIVE (non-comment) procedure header carrying bind(C[,name=...]) in masa.f90, at any nesting depth, with its body:
+    [(fortran_name, binding_label, body_text)].  -fc-prototypes only shows interfaces visible at module scope; an interface
+    block local to a contained procedure binds a C symbol all the same."""
+    txt = "\n".join(l.split("!")[0] for l in open(os.path.join(src, "masa.f90")).read().splitlines())
+    out = []
+    pat = re.compile(r"^[ \t]*((?:[\w\(\) \t]+?[ \t]+)?(function|subroutine)[ \t]+(\w+)[ \t]*\([^)]*\)[^\n]*?bind[ \t]*\([ \t]*C[ \t]*(?:,[ \t]*name[ \t]*=[ \t]*'(\w+)')?[ \t]*\)[^\n]*\n.*?\n[ \t]*end[ \t]+\2(?:[ \t]+\3)?[ \t]*)$", re.S | re.I | re.M)
+    for m in pat.finditer(txt):
+        fname = m.group(3)
+        if fname.lower() == "funct":
+            continue      # the callback dummy's own (nested, abstract) interface: not a binding to a library symbol
+        label = m.group(4) or fname.lower()
+        out.append((fname, label, m.group(1)))
+    return out
+
+
+def standalone_prototype(body, work, tag):
+    """the C prototype the Fortran compiler derives from ONE interface body, compiled on its own"""
+    f = os.path.join(work, "iface_%s.f90" % tag)
+    with open(f, "w") as fh:
+        fh.write("module iface_probe\n  use iso_c_binding\n  implicit none\n  interface\n" + body + "\n  end interface\nend module iface_probe\n")
+    rc, out, err = sh(["gcc", "-fsyntax-only", "-fc-prototypes", f], cwd=work)
+    if rc != 0:
+        return None
+    for line in out.splitlines():
+        m = re.match(r"^([\w \*]+?)\s*\b(\w+)\s*\((.*)\);\s*$", line)
+        if m:
+            return m.group(2), (norm_type(m.group(1)), [a for a in (x.strip() for x in m.group(3).split(",")) if a])
+    return None
+
+
 def fortran_callback_by_value(src):
     """for each interface with a procedure dummy 'funct': does the module declare the callback's argument VALUE?"""
     txt = open(os.path.join(src, "masa.f90")).read()
@@ -240,15 +271,39 @@ def check(tier, seed):
         libdir = build.build_lib("asan")
         # ---- 1 + 2: compiler views of both sides
         protos = fortran_prototypes(src, work)
+        # interfaces the module-scope dump does not show (nested in a contained procedure, ...): each compiled on its own and added
+        hidden = []
+        bodies = fortran_interface_bodies(src)
+        seen_labels = {}
+        for fname, label, body in bodies:
+            seen_labels[label] = seen_labels.get(label, 0) + 1
+        for k, (fname, label, body) in enumerate(bodies):
+            if label in protos and seen_labels[label] == 1:
+                continue
+            sp = standalone_prototype(body, work, str(k))
+            if sp is None:
+                agg.harness_fail.append("could not derive the prototype of the bind(C) interface %s (%s) on its own" % (fname, label))
+                continue
+            lab2, pr = sp
+            if label in protos and protos[label] == pr:
+                continue
+            key = label if label not in protos else "%s@%s" % (label, fname)
+            hidden.append(key)
+            protos[key] = pr
         txt = open(os.path.join(src, "masa.f90")).read()
         n_bind = len([1 for l in txt.splitlines() if re.search(r"bind\s*\(\s*C\s*,\s*name\s*=", l, re.I) and not l.lstrip().startswith("!")])
-        cdefs = c_definitions(src, libdir, work, sorted(protos))
+        cdefs = c_definitions(src, libdir, work, sorted(set(n.split("@")[0] for n in protos)))
         defined = defined_symbols(libdir)
         cbv = fortran_callback_by_value(src)
         for name in sorted(protos):
             fret, fargs = protos[name]
             nobs += 1
-            if name not in defined or name not in cdefs:
+            cname = name.split("@")[0]
+            if cname != name:
+                cdefs[name] = cdefs.get(cname)
+                if cdefs[name] is None:
+                    del cdefs[name]
+            if cname not in defined or name not in cdefs:
                 viol("fortran-binds-undefined-symbol:" + name, "masa.f90 binds to '%s' which the C interface does not define" % name)
                 continue
             cret, cargs = cdefs[name]
@@ -284,6 +339,26 @@ def check(tier, seed):
             nobs += 1
             if d not in defined:
                 viol("header-declares-undefined:" + d, "masa.h declares extern \"C\" %s but the library does not define it" % d)
+        # ... in every configuration configure can produce (its AC_DEFINEs): the C wrappers compiled with those macros must still define every
+        # function the header declares (under the same macros) and every symbol the Fortran module binds to
+        configs = [("python", ["SWIG_INTERFACES"]), ("fortran", ["FORTRAN_INTERFACES"]), ("python+fortran", ["SWIG_INTERFACES", "FORTRAN_INTERFACES"]),
+                   ("exceptions", ["MASA_EXCEPTIONS"]), ("strict-regression", ["MASA_STRICT_REGRESSION"])]
+        for cname, macros in configs:
+            o = os.path.join(work, "cmasa_%s.o" % cname.replace("+", "_"))
+            rc, out, err = sh(["g++", "-std=gnu++17", "-O0", "-w", "-DHAVE_CONFIG_H", "-D" + build.GUARD] + ["-D%s=1" % m for m in macros] + ["-I", libdir, "-I", src, "-c", os.path.join(src, "cmasa.cpp"), "-o", o])
+            nobs += 1
+            if rc != 0:
+                viol("c-wrappers-do-not-compile-in-configuration:" + cname, "cmasa.cpp does not compile with %s: %s" % (macros, err[-300:]))
+                continue
+            rc, out, err = sh(["nm", "-g", "--defined-only", o])
+            dsy = set(l.split()[2] for l in out.splitlines() if len(l.split()) == 3 and l.split()[1] in ("T", "W"))
+            hv = header_view(libdir, tuple("%s=1" % m for m in macros)) or {}
+            for d in sorted(hv):
+                if d not in dsy:
+                    viol("header-declares-undefined-in-configuration:%s:%s" % (cname, d), "configuration '%s' (%s): masa.h declares %s but the C wrappers do not define it" % (cname, " ".join(macros), d))
+            for name in sorted(set(n.split("@")[0] for n in protos)):
+                if name not in dsy:
+                    viol("fortran-binds-undefined-symbol-in-configuration:%s:%s" % (cname, name), "configuration '%s': masa.f90 binds to '%s' which the C wrappers do not define" % (cname, name))
         probe = os.path.join(work, "hdr_probe.c")
         with open(probe, "w") as f:
             f.write("#include <masa.h>\n#include <stdio.h>\nint main(void){ void* p[] = {%s}; printf(\"%%d\\n\", (int)(sizeof p/sizeof p[0])); return p[0]==0; }\n" % ", ".join("(void*)%s" % d for d in decls))
@@ -379,10 +454,11 @@ def check(tier, seed):
                        "existence, arity, each argument type and passing convention, result type; callback dummies compared through the module's abstract interface; every extern \"C\" declaration "
                        "of masa.h defined (nm) and a C program referencing all of them links and runs; a generated Fortran program using the real module calls every interface on 6 solutions and "
                        "is compared bit for bit with the C++ <double> API executing the same plan under ASan; masa.i checked lexically. Distinct = symbols.",
-               "exhaustive": True, "bind_c_interfaces_in_source": n_bind, "interfaces_seen_by_compiler": len(protos), "header_declarations": len(decls),
+               "exhaustive": True, "bind_c_interfaces_in_source": n_bind, "interfaces_seen_by_compiler": len(protos), "interface_bodies_cut_from_the_text(any nesting depth)": len(bodies), "interfaces_invisible_at_module_scope": hidden, "configurations_of_the_c_wrappers_checked": ["default", "python", "fortran", "python+fortran", "exceptions", "strict-regression"], "header_declarations": len(decls),
                "fortran_execution_comparisons": exec_cmp, "callback_argument_declared_by_value": {k: v[0] for k, v in cbv.items()},
                "swig": "swig is not installed: masa.i is checked lexically (sole declaration source %include \"masa.h\", no %ignore/%rename/#define) and the generated masa.h is preprocessed as C with and without -DSWIG -DSWIGPYTHON: both views must declare the same functions"}
         floors = [("compiler saw every bind(C,name=) interface of the source", len(protos) == n_bind and n_bind >= 80),
+                  ("every bind(C) procedure header of the source was cut out with its body (any nesting depth)", len(bodies) >= n_bind),
                   ("at least 40 extern C declarations in masa.h", len(decls) >= 40),
                   ("Fortran execution compared at least 400 results", exec_cmp >= 400 or any(v["key"].startswith("fortran-") for v in agg.viols))]
         return finish(agg, "exploration", cov, ["gfortran's -fc-prototypes and gdb's DWARF reader report the compilers' own view of both sides", "SWIG clause: lexical only (tool absent)"], floors)
